@@ -136,6 +136,17 @@ func init() {
 			cur.yieldFn = args[0]
 			return nil
 		},
+		// time.Sleep: lets the environment act (other goroutines); without an environment it is a no-op
+		"time.Sleep": func(fr *frame, args []value) value {
+			cur.sleeps++
+			if cur.sleeps > 10000 {
+				abortPath("inconclusive", "more than 10000 time.Sleep calls on one path (waiting for something that never happens)")
+			}
+			if cur.yieldFn != nil {
+				call(fr.i, fr, 0, cur.yieldFn, []value{"sleep"})
+			}
+			return nil
+		},
 		"time.Now": func(fr *frame, args []value) value {
 			// Time{wall: nsec, ext: sec + unixToInternal, loc: nil}; clock is in nanoseconds
 			ns := clockNanos()
